@@ -10,7 +10,9 @@ use vcore::driver::{BothBuilds, Ctx, Outcome, PropDef, Violation};
 use vcore::ref_loc::{self, Lang, Loc, LANGS, LOCS};
 use vcore::{util, Tally};
 
-const COMPONENTS: [&str; 9] = ["m", "GameData.bin.lz", "a b", "日本", "x.y", "@E", "s_", " ", "b\\c.bin"];
+// the last two: characters whose code points END in the byte of an ASCII delimiter (U+662F '/',
+// U+4E5C '\\', U+4E2E '.', U+5140 '@', U+4E00 NUL) — a test on a truncated char meets them
+const COMPONENTS: [&str; 11] = ["m", "GameData.bin.lz", "a b", "日本", "x.y", "@E", "s_", " ", "b\\c.bin", "是a", "乜丮兀一"];
 const DEGENERATE: [&str; 7] = ["", "/", "..", ".", "a/..", "../a/..", "//"];
 
 fn paths(max_depth: usize) -> Vec<String> {
@@ -113,7 +115,7 @@ fn explore(ctx: &Ctx) -> Outcome {
     tally.sample(json!({"loc":"FE14","lang":"Spanish","path":"m/GameData.bin.lz","expected": ref_loc::expected(Loc::FE14, Lang::Spanish, "m/GameData.bin.lz")}));
     tally.sample(json!({"loc":"FE10","lang":"German","path":"日本/","expected": ref_loc::expected(Loc::FE10, Lang::German, "日本/")}));
     let mut o = tally.into_outcome(
-        "every (localizer, language, path): 6 × 8 × all relative paths of depth 1..=D over an 8-component alphabet with and without trailing slash, plus 7 degenerate paths; non-trivial = non-identity localizer on a path with a final component",
+        "every (localizer, language, path): 6 × 8 × all relative paths of depth 1..=D over an 11-component alphabet with and without trailing slash, plus 7 degenerate paths; non-trivial = non-identity localizer on a path with a final component",
         true,
         vec![("max_depth", json!(depth)), ("paths", json!(all.len())), ("components", json!(COMPONENTS)), ("degenerate", json!(DEGENERATE))],
     );
